@@ -66,6 +66,14 @@ Example f06_repaired :
   sat w0 f06_s /\ match gen w0 f06_s [0] with Ok (v, _) => verdict f06_s v | _ => false end = true.
 Proof. split; [cbn; split; [reflexivity | vm_compute; reflexivity] | vm_compute; reflexivity]. Qed.
 
+(* F29 (open): the scaled bound overflows - excluded from [sat] by [prec_ok] *)
+Definition f29_s : schema :=                              (* float.min(1.0).max(1e308).precision(2) *)
+  SFloat None (Some PrimFloat.one) (Some (mkf false 5010420900022432 971)) (Some (IInt 2%Z)).
+Example f29_witness :
+  gen w0 f29_s [0] = Raise OverflowError /\ verdict f29_s (VFloat PrimFloat.one) = true
+  /\ prec_ok PrimFloat.one (mkf false 5010420900022432 971) 2 = false.
+Proof. vm_compute. auto. Qed.
+
 (* non-vacuity: a nested schema meeting the hypotheses, generated under two tapes *)
 Definition ex_s : schema :=
   SDict (Some [ (KStr [97], Some (SList (Some [None; Some (SInt None (Some (IInt 2%Z)) None)]) None
